@@ -22,9 +22,14 @@ LIB = {
     "terr": "{{#invoke:bad|err}}",
     "tbadpfn": "{{#expr:1+}}{{#titleparts:a|x}}{{#time:Y|garbage}}",
     "tpp": "{{#invoke:echo|pp|{{{1|}}}}}",
+    # expansions that come out empty (hooks see / skip the empty string)
+    "tempty": "",
+    "targ": "{{{1|}}}",
+    "tcond": "{{#if:{{{1|}}}|x}}",
+    "tnoinc": "<noinclude>doc only</noinclude>",
 }
 CALLABLE = ["ta", "tb", "Tc", "t d", "te", "tloop", "tmut1", "tinv", "tinvp",
-            "terr", "tbadpfn", "tpp"]
+            "terr", "tbadpfn", "tpp", "tempty", "targ", "tcond", "tnoinc"]
 KEYS = {"msg", "trace", "title", "section", "subsection", "called_from", "path"}
 REPS = [1, 1, 2, 3, 7, 40, 120, 300]
 
@@ -217,6 +222,7 @@ FIXED = [
     "{{nope}}{{ta|{{tb|{{Tc|z}}}}}}",
     "[[a|{{tb|x}}]] [http://x.y {{tb|z}}] {{{p|{{tb|d}}}}}",
     "{{#invoke:echo|pp|{{((}}tloop{{))}}}}",
+    "a{{tempty}}b{{targ}}{{tcond}}{{tnoinc}}{{targ|v}}",
 ]
 
 
@@ -283,8 +289,10 @@ def shard(idx, nshards, seed, n, known, quick):
         for ei in (True, False):
             for ep in (True, False):
                 for pe in (True, False):
-                    grid.append(dict(base, api=api, expand_invoke=ei,
-                                     expand_parserfns=ep, pre_expand=pe))
+                    for hk in (None, "none"):
+                        grid.append(dict(base, api=api, expand_invoke=ei,
+                                         expand_parserfns=ep, pre_expand=pe,
+                                         template_fn=hk, post_template_fn=hk))
     work = [(t, o) for t in FIXED for o in grid]
     if quick:
         work = work[seed % 3::3]
